@@ -1,6 +1,7 @@
 package proxy
 
 import (
+	"context"
 	"errors"
 	"fmt"
 	"log/slog"
@@ -304,7 +305,10 @@ func (f *fetcher) dedupFetch(req *http.Request, key cache.CacheKey, clientHd *he
 	originalClientHd := *clientHd // Copy the original client headers so the shared requests don't get a modified version
 
 	fetchedObj, err, shared := f.group.Do(key.Hex, func() (any, error) {
-		return f.getFromCacheOrFetch(req, key, clientHd)
+		// The result is shared with every request that joins this fetch, so it must not be
+		// cancelled just because the client that happened to start it disconnects.
+		sharedReq := req.WithContext(context.WithoutCancel(req.Context()))
+		return f.getFromCacheOrFetch(sharedReq, key, clientHd)
 	})
 	verifYield("fetch.afterDo")
 	if err != nil {
